@@ -645,6 +645,28 @@ def l17(ctx, rid):
         raise core.AnchorLost('callers of launch_observer: %d' % n)
 
 
+def l18(ctx, rid):
+    """`filling the active blob beyond its limit still leads to a switch`: the worker serves a request when it gets the storage
+    lock, and it *waits* for it.  A try-lock that gives up when the storage is busy turns every request that arrives under load
+    into a no-op; with permanent read load the switch never happens."""
+    prog = ctx.prog
+    n = 0
+    bad = None
+    for f in prog.fns.values():
+        if f.file != WORKER_FILE:
+            continue
+        n += 1
+        for c in f.calls:
+            if c.bb in f.reachable() and c.name in ('try_write', 'try_read', 'try_lock', 'try_upgradable_read', 'try_acquire', 'try_write_owned', 'try_read_owned') and ('RwLock' in c.path or 'Mutex' in c.path or 'Semaphore' in c.path):
+                bad = c
+    if n < 10:
+        raise core.AnchorLost('functions in the worker module: %d' % n)
+    if bad:
+        ctx.bad(rid, 'worker-waits-for-locks', bad.where(), 'the maintenance worker takes a lock with `%s` and gives up when it is busy: a request (blob switch, dump, sync) that arrives under load is dropped, and nothing re-issues it' % bad.name)
+    else:
+        ctx.ok(rid, 'worker-waits-for-locks', '', 'no try-lock in %d worker functions' % n, nontrivial=False, queries=n)
+
+
 RULES = [
     Rule('C13.L1', 'the worker loop is only left through the Stop arm (recv() == None) and contains no reachable panic written in the worker module', l1, 4),
     Rule('C13.L3', 'one channel, Sender never cloned, stored only in the Running state, dropped before the worker handle is awaited', l3, 4),
@@ -660,6 +682,7 @@ RULES = [
     Rule('C13.L14', 'a state transition of the observer never drops a Running state (its Sender) on a returning path', l14, 1),
     Rule('C13.L16', 'a failed index load ends in clear() + successful regeneration before the blob is handed on (C03.I4 instances)', l16, 2),
     Rule('C13.L17', 'every successful initialisation has launched the maintenance worker', l17, 1),
+    Rule('C13.L18', 'the maintenance worker waits for the locks it needs (no try-lock that drops a request under load)', l18, 1),
     Rule('C13.L15', 'the blob id counter is never given back: a creation failure bound to one file name cannot repeat for ever (C07.H6 instances)', l15, 3),
     Rule('C13.L8', 'request-pending / in-progress flags are released on every path of their handler (C12.S8 instances)', l8, 1),
 ]
